@@ -18,6 +18,7 @@ class Boundary(object):
         self.installed = False
         self.counts = {"solve_calls": 0, "sent_constraints": 0, "sent_lmis": 0, "inner_solves": 0,
                        "assign_dual_calls": 0}
+        self.default_solver = None     # when set, injected as solver= for solves that do not name one
         self.skip_solve = False        # translation-validation mode: never call the solver
         self.fault = None              # callable(rec, inner_index) -> None | "none" | "raise" | "inaccurate"
         self.after_generate = None     # callable(wrapper, rec)
@@ -36,6 +37,8 @@ class Boundary(object):
         self._orig[(PEP, "solve")] = orig_solve
 
         def solve(pep, *a, **kw):
+            if mon.default_solver is not None and kw.get("solver") is None:
+                kw["solver"] = mon.default_solver
             rec = {"k": len(mon.records), "opts": dict(kw), "args": a, "sent": [], "inner": [],
                    "assign_after_inner": None, "prepare": None, "heuristic_calls": 0, "objective": None,
                    "wrapper_cls": None, "pep": pep}
